@@ -521,23 +521,32 @@ def run_check(prop, tier, seed):
             cands.setdefault(mismatch_key(c['m']), c)
         violations, known_hits, unrepro = [], [], 0
         outdir = os.path.join(ROOT, 'replays')
-        # confirm at most a handful of distinct candidates (each costs a build-free re-execution + one TLC run)
-        for key, c in list(cands.items())[:40]:
+        # confirm a handful of distinct candidates (each costs a re-execution + one TLC run), in parallel
+        todo = list(cands.items())[:16]
+
+        def confirm(item):
+            key, c = item
             f = known_match(known, c['m'])
             rp = replay_file(run, c, run.sub('cand'))
             if rp is None:
-                unrepro += 1
-                continue
+                return ('unrepro', c, f)
             same, allm = do_replay(run, rp)
             if not same:
-                unrepro += 1
-                log('candidate not reproduced by replay (dropped): ' + json.dumps(c['m'])[:300])
-                continue
-            if f is not None:
-                known_hits.append(f['what'])
-                continue
-            final = replay_file(run, c, outdir)
-            violations.append((c['m'], final))
+                return ('unrepro', c, f)
+            return ('confirmed', c, f)
+
+        if todo:
+            build_harness(run)
+        with cf.ThreadPoolExecutor(max_workers=8) as ex:
+            for status, c, f in ex.map(confirm, todo):
+                if status == 'unrepro':
+                    unrepro += 1
+                    log('candidate not reproduced by replay (dropped): ' + json.dumps(c['m'])[:300])
+                elif f is not None:
+                    known_hits.append(f['what'])
+                else:
+                    final = replay_file(run, c, outdir)
+                    violations.append((c['m'], final))
         for w in sorted(set(known_hits)):
             print('KNOWN-FINDING: property=%s %s' % (prop, w))
         write_evidence(run, len(violations), sorted(set(known_hits)), plan['rule'], plan['assumptions'],
